@@ -200,6 +200,25 @@ let ascast h zh helper tys vals mode =
   | TUint _ | TBool | TRoot | TBytes _ -> "OK " ^ sval v
   | _ -> (match from_val zh t v with OK n -> "OK " ^ hb (root_of h n) | _ -> "ERR")
 
+(* the sub-chunk primitives of view/basic.go, view/u256.go *)
+let prim op args =
+  let chunk h = bytes_of_hex h in
+  match op, args with
+  | "bfb", [w; c; i; n] ->
+    (match packed_set (TUint (nh w)) (chunk c) (nh i) (VUint (nh n)) with
+     | OK c' -> "new=" ^ hb c' ^ " base=same" | Panic -> "new=NIL base=same" | Err -> "new=ERR base=same")
+  | "bvb", [w; c; i] ->
+    (match packed_val (TUint (nh w)) (chunk c) (nh i) with
+     | OK (VUint n) -> "OK " ^ hn n | OK _ -> "ERR" | Err -> "ERR" | Panic -> "PANIC")
+  | "bitb", [c; i; b] -> "new=" ^ hb (chunk_set_bit (chunk c) (nh i) (b = "1")) ^ " base=same"
+  | "bitg", [c; i] -> show_bool (chunk_get_bit (chunk c) (nh i))
+  | "boolb", [c; i; b] ->
+    (match bool_backing_from_base (chunk c) (nh i) (b = "1") with
+     | Some c' -> "new=" ^ hb c' ^ " base=same" | None -> "new=NIL base=same")
+  | "boolg", [c; i] ->
+    (match bool_subview (chunk c) (nh i) with Some b -> "OK " ^ show_bool b | None -> "NIL")
+  | _ -> failwith "bad prim op"
+
 let c10 tys data =
   let t = ty_of tys in
   let bs = bytes_of_hex data in
@@ -437,6 +456,7 @@ let dispatch set_cfg cur_h cur_zh (op : string) (args : string list) : string =
   | "c10", [t; data] -> c10 t data
   | "c17", [t; v] -> set_cfg "sha"; c17 !cur_h !cur_zh t v
   | "ascast", [helper; t; v; mode] -> set_cfg "sha"; ascast !cur_h !cur_zh helper t v mode
+  | ("bfb" | "bvb" | "bitb" | "bitg" | "boolb" | "boolg"), _ -> prim op args
   | "woff", [prev; size] -> woff prev size
   | "wprim", [w; x] -> wprim w x
   | "c09x", [t; v] -> c09x t v
